@@ -35,10 +35,11 @@ type Case struct {
 }
 
 type world struct {
-	mu      sync.Mutex
-	srv     *jrpc2.Server
-	assigns []string
-	flags   []string
+	mu        sync.Mutex
+	srv       *jrpc2.Server
+	assigns   []string
+	assignIDs []string // method \x00 id of the inbound request shown to the assigner
+	flags     []string
 }
 
 func (w *world) build(n ANode, path string) jrpc2.Assigner {
@@ -77,13 +78,29 @@ type recorder struct {
 }
 
 func (r recorder) Assign(ctx context.Context, method string) jrpc2.Handler {
+	ir := jrpc2.InboundRequest(ctx)
 	r.w.mu.Lock()
 	r.w.assigns = append(r.w.assigns, method)
+	if ir != nil {
+		r.w.assignIDs = append(r.w.assignIDs, method+"\x00"+ir.ID())
+	}
 	r.w.mu.Unlock()
-	if ir := jrpc2.InboundRequest(ctx); ir == nil || ir.Method() != method {
+	if ir == nil || ir.Method() != method {
 		r.w.flag("assigner asked for %q but InboundRequest(ctx) is %v", method, ir)
 	}
-	return r.inner.Assign(ctx, method)
+	h := r.inner.Assign(ctx, method)
+	if h == nil || ir == nil {
+		return h
+	}
+	// The handler is handed out for this very request: an assigner may choose
+	// by anything InboundRequest shows it.
+	forID := ir.ID()
+	return func(ctx context.Context, req *jrpc2.Request) (any, error) {
+		if req.ID() != forID {
+			r.w.flag("the handler the assigner returned for request id %s (method %q) was run for request id %s", forID, method, req.ID())
+		}
+		return h(ctx, req)
+	}
 }
 
 func (r recorder) Names() []string { return r.inner.(jrpc2.Namer).Names() }
@@ -212,6 +229,62 @@ func run(_ *testing.T, c Case) engine.Verdict {
 		if strings.Contains(name, ".") || strings.HasPrefix(strings.ToLower(name), "rpc") {
 			nt = true
 		}
+	}
+	// The same names again as one batch, each twice: every member is shown to
+	// the assigner once, as itself, and runs the handler returned for it.
+	var specs []jrpc2.Spec
+	for i, name := range c.Names {
+		if name == "" {
+			continue
+		}
+		specs = append(specs, jrpc2.Spec{Method: name, Params: map[string]int{"n": i}}, jrpc2.Spec{Method: name, Params: map[string]int{"n": -i - 1}})
+	}
+	if len(specs) > 0 {
+		w.mu.Lock()
+		w.assignIDs = nil
+		w.mu.Unlock()
+		rsps, err := loc.Client.Batch(context.Background(), specs)
+		if err != nil || len(rsps) != len(specs) {
+			return engine.Failf("C17/batch", "batch of %d calls: %d responses, err %v", len(specs), len(rsps), err)
+		}
+		var wantAsked []string
+		for i, rsp := range rsps {
+			name := specs[i].Method
+			reserved := !c.DisableBuiltin && strings.HasPrefix(name, "rpc.")
+			if !reserved {
+				wantAsked = append(wantAsked, name+"\x00"+rsp.ID())
+			}
+			want := ""
+			if !reserved {
+				want = resolve(c.Tree, "", name)
+			}
+			var got struct{ Tag, Method, Params string }
+			rerr := rsp.UnmarshalResult(&got)
+			switch {
+			case reserved && name == "rpc.serverInfo":
+				if rsp.Error() != nil {
+					return engine.Failf("C17/serverinfo", "rpc.serverInfo in a batch failed: %v", rsp.Error())
+				}
+			case want == "":
+				if rsp.Error() == nil || rsp.Error().Code != jrpc2.MethodNotFound {
+					return engine.Failf("C17/unknown-name-served", "batch member %q: got %v / tag %q, want method-not-found", name, rsp.Error(), got.Tag)
+				}
+			default:
+				wantParams := fmt.Sprintf(`{"n":%d}`, specs[i].Params.(map[string]int)["n"])
+				if rsp.Error() != nil || rerr != nil || got.Tag != want || got.Method != name || got.Params != wantParams {
+					return engine.Failf("C17/wrong-handler", "batch member #%d %q %s ran handler %q and saw method %q params %s (err %v %v), the documented lookup gives %q", i, name, wantParams, got.Tag, got.Method, got.Params, rsp.Error(), rerr, want)
+				}
+			}
+		}
+		w.mu.Lock()
+		gotAsked := append([]string(nil), w.assignIDs...)
+		w.mu.Unlock()
+		sort.Strings(gotAsked)
+		sort.Strings(wantAsked)
+		if strings.Join(gotAsked, "|") != strings.Join(wantAsked, "|") {
+			return engine.Failf("C17/assigner-asked", "batch: the assigner was shown (method, inbound id) %q, the members it must see are %q", gotAsked, wantAsked)
+		}
+		labels = append(labels, "batch-with-repeated-names")
 	}
 	w.mu.Lock()
 	flags := append([]string(nil), w.flags...)
